@@ -193,4 +193,263 @@ theorem C07_infer_vs_infer (kb : KB ι α) (hwf : WF kb) (cfg₁ cfg₂ : InferC
   rw [List.eq_of_mem_replicate hl'] at hm
   exact (hsame st).mpr hm
 
+/-! ### non-vacuity
+
+A concrete weighted knowledge base over `ℚ`: atoms `0`, `1`; node `2 = And(0, 1)` with weights
+`(1, 2)`, bias `1`; node `3 = Not(1)`; alpha `3/4` everywhere. All hypotheses of the theorems are
+met by concrete schedules that differ in order, in repetition and in visiting operands one by one
+or together, and by a concrete `infer` run; before quiescence the order *does* matter; and on
+contradictory data the end states of two exhaustive schedules really differ (so the
+"no contradiction" hypothesis of `C07_confluent` cannot be dropped) while both are arrested. -/
+
+namespace C07ex
+
+def kb : KB Nat ℚ := fun i =>
+  match i with
+  | 2 => { kind := .and, ops := [0, 1], ws := [1, 2], bias := 1, alpha := 3/4 }
+  | 3 => { kind := .neg, ops := [1], bias := 1, alpha := 3/4 }
+  | _ => { kind := .atom, bias := 1, alpha := 3/4 }
+
+/-- initial state: `0` is true, the conjunction is at least `1/2` -/
+def S0 : State Nat ℚ := fun i =>
+  if i = 0 then ⟨1, 1⟩ else if i = 2 then ⟨1/2, 1⟩ else ⟨0, 1⟩
+
+/-- after the downward step of the conjunction -/
+def S1 : State Nat ℚ := fun i =>
+  if i = 0 then ⟨1, 1⟩ else if i = 1 then ⟨3/4, 1⟩ else if i = 2 then ⟨1/2, 1⟩ else ⟨0, 1⟩
+
+/-- the common end state -/
+def T : State Nat ℚ := fun i =>
+  if i = 0 then ⟨1, 1⟩ else if i = 1 then ⟨3/4, 1⟩ else if i = 2 then ⟨1/2, 1⟩
+  else if i = 3 then ⟨0, 1/4⟩ else ⟨0, 1⟩
+
+/-- contradictory data: the conjunction is true, operand `0` is false -/
+def C0 : State Nat ℚ := fun i =>
+  if i = 0 then ⟨0, 0⟩ else if i = 2 then ⟨1, 1⟩ else ⟨0, 1⟩
+
+def CA1 : State Nat ℚ := fun i =>
+  if i = 0 then ⟨1, 0⟩ else if i = 1 then ⟨1, 1⟩ else if i = 2 then ⟨1, 1⟩ else ⟨0, 1⟩
+
+/-- end state on the contradictory data when the conjunction is first run downward -/
+def CA : State Nat ℚ := fun i =>
+  if i = 0 then ⟨1, 0⟩ else if i = 1 then ⟨1, 1⟩ else if i = 2 then ⟨1, 1⟩
+  else if i = 3 then ⟨0, 0⟩ else ⟨0, 1⟩
+
+/-- end state on the contradictory data when the conjunction is first run upward -/
+def CB : State Nat ℚ := fun i =>
+  if i = 0 then ⟨0, 0⟩ else if i = 2 then ⟨1, 0⟩ else ⟨0, 1⟩
+
+/-- the admissible steps: everything the two connectives can do, operands together or one by one -/
+def steps : List (Step Nat) :=
+  [.up 2, .down 2 none, .down 2 (some 0), .down 2 (some 1), .up 3, .down 3 none]
+
+def L1 : List (Step Nat) := [.down 2 none, .up 3]
+def L2 : List (Step Nat) :=
+  [.up 3, .up 2, .down 2 (some 0), .down 2 (some 1), .down 3 none, .up 3]
+def L3 : List (Step Nat) := [.up 3, .down 2 none, .down 3 none, .up 2, .up 3]
+
+theorem wf : WF kb := by
+  intro i
+  unfold kb
+  split <;> simp <;> norm_num
+
+theorem unit0 : UnitState S0 := by
+  intro i
+  unfold S0 UnitB
+  split_ifs <;> norm_num
+
+theorem unitC : UnitState C0 := by
+  intro i
+  unfold C0 UnitB
+  split_ifs <;> norm_num
+
+/-- evaluate the state component of one step at one node -/
+local macro "c07_eval" : tactic => `(tactic|
+  (simp [runStep, stepDown, stepUp, kb, S0, S1, T, C0, CA1, CA, CB, arrested, isContra, region,
+      actDown, actUp, andDown, andUp, opds, writeOps, enumFrom, aggregate_both, clamp01, termHi,
+      termLo, sumW, negB, Function.update] <;>
+   norm_num [runStep, stepDown, stepUp, kb, S0, S1, T, C0, CA1, CA, CB, arrested, isContra, region,
+      actDown, actUp, andDown, andUp, opds, writeOps, enumFrom, aggregate_both, clamp01, termHi,
+      termLo, sumW, negB, Function.update]))
+
+/-- evaluate the state component of one step -/
+local macro "c07_step" : tactic => `(tactic|
+  (funext i
+   match i with
+   | 0 => c07_eval
+   | 1 => c07_eval
+   | 2 => c07_eval
+   | 3 => c07_eval
+   | (n + 4) => c07_eval <;> simp))
+
+/-- evaluate the amount reported by one step -/
+local macro "c07_amt" : tactic => `(tactic|
+  (simp [runStep, stepDown, stepUp, kb, S0, S1, T, arrested, isContra, region, actDown, actUp,
+      andDown, andUp, opds, writeOps, enumFrom, aggregate, clamp01, termHi, termLo, sumW, negB,
+      Function.update] <;>
+   norm_num [runStep, stepDown, stepUp, kb, S0, S1, T, arrested, isContra, region, actDown, actUp,
+      andDown, andUp, opds, writeOps, enumFrom, aggregate, clamp01, termHi, termLo, sumW, negB,
+      Function.update]))
+
+theorem s_a : (runStep kb (.down 2 none) S0).1 = S1 := by c07_step
+theorem s_b : (runStep kb (.up 3) S1).1 = T := by c07_step
+theorem s_c : (runStep kb (.up 3) S0).1 = S0 := by c07_step
+theorem s_d : (runStep kb (.up 2) S0).1 = S0 := by c07_step
+theorem s_e : (runStep kb (.down 2 (some 0)) S0).1 = S0 := by c07_step
+theorem s_f : (runStep kb (.down 2 (some 1)) S0).1 = S1 := by c07_step
+theorem s_g : (runStep kb (.down 3 none) S1).1 = S1 := by c07_step
+theorem s_h : (runStep kb (.up 2) S1).1 = S1 := by c07_step
+
+theorem run1 : (runSteps kb L1 S0).1 = T := by
+  simp only [L1, runSteps, s_a, s_b]
+
+theorem run2 : (runSteps kb L2 S0).1 = T := by
+  simp only [L2, runSteps, s_c, s_d, s_e, s_f, s_g, s_b]
+
+theorem run3 : (runSteps kb L3 S0).1 = T := by
+  simp only [L3, runSteps, s_c, s_a, s_g, s_h, s_b]
+
+theorem fix1 : (runStep kb (.up 2) T).1 = T := by c07_step
+theorem fix2 : (runStep kb (.down 2 none) T).1 = T := by c07_step
+theorem fix3 : (runStep kb (.down 2 (some 0)) T).1 = T := by c07_step
+theorem fix4 : (runStep kb (.down 2 (some 1)) T).1 = T := by c07_step
+theorem fix5 : (runStep kb (.up 3) T).1 = T := by c07_step
+theorem fix6 : (runStep kb (.down 3 none) T).1 = T := by c07_step
+
+/-- nothing changes any more in `T` -/
+theorem fixT : ∀ st, st ∈ steps → (runStep kb st T).1 = T := by
+  simp only [steps, List.mem_cons, List.not_mem_nil, or_false, forall_eq_or_imp, forall_eq]
+  exact ⟨fix1, fix2, fix3, fix4, fix5, fix6⟩
+
+/-- no node is arrested in `T` -/
+theorem freeT : ∀ st, st ∈ steps → arrested kb T (node st) = false := by
+  simp only [steps, List.mem_cons, List.not_mem_nil, or_false, forall_eq_or_imp, forall_eq]
+  norm_num [node, arrested, isContra, kb, T, region]
+
+/-- `L1` and `L2` differ in order, repetition and in visiting the operands of the conjunction one by
+one; every hypothesis of `C07_confluent` holds for them -/
+example : (runSteps kb L1 S0).1 = (runSteps kb L2 S0).1 :=
+  C07_confluent kb wf (· ∈ steps) S0 unit0 L1 L2
+    (by simp [L1, steps]) (by simp [L2, steps])
+    (by rw [run1]; exact fixT) (by rw [run2]; exact fixT)
+    (by rw [run1]; exact freeT) (by rw [run2]; exact freeT)
+
+/-- the common end state really is tighter than the initial one -/
+example : (runSteps kb L1 S0).1 1 = ⟨3/4, 1⟩ ∧ (runSteps kb L1 S0).1 3 = ⟨0, 1/4⟩ := by
+  rw [run1]; norm_num [T]
+
+/-- before quiescence the order does matter -/
+example : (runSteps kb [.up 3, .down 2 none] S0).1 3 = ⟨0, 1⟩ ∧
+    (runSteps kb [.down 2 none, .up 3] S0).1 3 = ⟨0, 1/4⟩ := by
+  simp only [runSteps, s_c, s_a, s_b]
+  norm_num [S1, T]
+
+/-! `infer` on the example -/
+
+def cfg : InferCfg Nat ℚ :=
+  { up := [.up 2, .up 3], down := [.down 2 none, .down 3 none], eps := 0 }
+
+theorem passUp : passSteps kb cfg.up = [.up 2, .up 3] := by
+  simp [passSteps, Call.steps, callUp, kb, cfg]
+
+theorem passDown : passSteps kb cfg.down = [.down 2 none, .down 3 none] := by
+  simp [passSteps, Call.steps, callDown, kb, cfg]
+
+theorem sweepSteps_eq : sweepSteps kb cfg = [.up 2, .up 3, .down 2 none, .down 3 none] := by
+  simp [sweepSteps, passUp, passDown]
+
+theorem a_a : (runStep kb (.up 2) S0).2 = 0 := by c07_amt
+theorem a_b : (runStep kb (.up 3) S0).2 = 0 := by c07_amt
+theorem a_c : (runStep kb (.down 2 none) S0).2 = 3/4 := by c07_amt
+theorem a_d : (runStep kb (.down 3 none) S1).2 = 0 := by c07_amt
+theorem a_e : (runStep kb (.up 2) S1).2 = 0 := by c07_amt
+theorem a_f : (runStep kb (.up 3) S1).2 = 3/4 := by c07_amt
+theorem a_g : (runStep kb (.down 2 none) T).2 = 0 := by c07_amt
+theorem a_h : (runStep kb (.down 3 none) T).2 = 0 := by c07_amt
+theorem a_i : (runStep kb (.up 2) T).2 = 0 := by c07_amt
+theorem a_j : (runStep kb (.up 3) T).2 = 0 := by c07_amt
+
+theorem sweep0 : sweep kb cfg S0 = (S1, 3/4) := by
+  simp only [sweep, runPass, passUp, passDown, runSteps, s_d, s_c, s_a, s_g, a_a, a_b, a_c, a_d]
+  norm_num
+
+theorem sweep1 : sweep kb cfg S1 = (T, 3/4) := by
+  simp only [sweep, runPass, passUp, passDown, runSteps, s_h, s_b, fix2, fix6, a_e, a_f, a_g, a_h]
+  norm_num
+
+theorem sweep2 : sweep kb cfg T = (T, 0) := by
+  simp only [sweep, runPass, passUp, passDown, runSteps, fix1, fix5, fix2, fix6, a_i, a_j, a_g, a_h]
+  norm_num
+
+/-- `infer` needs three sweeps, reports convergence and ends in `T` -/
+theorem infer_eq : (infer kb cfg 5 S0).state = T ∧
+    (infer kb cfg 5 S0).converged = true ∧ (infer kb cfg 5 S0).steps = 3 := by
+  have hq : ∀ s, queryStop cfg s = false := fun s => rfl
+  have e : cfg.eps = 0 := rfl
+  simp only [infer, hq, sweep0, sweep1, sweep2, e]
+  norm_num
+
+/-- every hypothesis of `C07_infer_vs_schedule` holds for this `infer` run and the hand-made
+schedule `L3` of node-level calls (a different order from the sweeps of `infer`) -/
+example : (infer kb cfg 5 S0).state = (runSteps kb L3 S0).1 :=
+  C07_infer_vs_schedule kb wf cfg (le_of_eq rfl) 5 S0 unit0 infer_eq.2.1
+    (by rw [infer_eq.1, sweepSteps_eq]; intro st hst; exact freeT st (by revert hst; simp [steps]; tauto))
+    L3 (by rw [sweepSteps_eq]; simp [L3])
+    (by rw [run3, sweepSteps_eq]; intro st hst; exact fixT st (by revert hst; simp [steps]; tauto))
+    (by rw [run3, sweepSteps_eq]; intro st hst; exact freeT st (by revert hst; simp [steps]; tauto))
+
+/-! contradictory data -/
+
+def LA : List (Step Nat) := [.down 2 none, .up 3]
+def LB : List (Step Nat) := [.up 2, .up 3]
+
+theorem c_a : (runStep kb (.down 2 none) C0).1 = CA1 := by c07_step
+theorem c_b : (runStep kb (.up 3) CA1).1 = CA := by c07_step
+theorem c_c : (runStep kb (.up 2) C0).1 = CB := by c07_step
+
+theorem runA : (runSteps kb LA C0).1 = CA := by
+  simp only [LA, runSteps, c_a, c_b]
+
+theorem fixA1 : (runStep kb (.up 2) CA).1 = CA := by c07_step
+theorem fixA2 : (runStep kb (.down 2 none) CA).1 = CA := by c07_step
+theorem fixA3 : (runStep kb (.down 2 (some 0)) CA).1 = CA := by c07_step
+theorem fixA4 : (runStep kb (.down 2 (some 1)) CA).1 = CA := by c07_step
+theorem fixA5 : (runStep kb (.up 3) CA).1 = CA := by c07_step
+theorem fixA6 : (runStep kb (.down 3 none) CA).1 = CA := by c07_step
+
+theorem fixB1 : (runStep kb (.up 2) CB).1 = CB := by c07_step
+theorem fixB2 : (runStep kb (.down 2 none) CB).1 = CB := by c07_step
+theorem fixB3 : (runStep kb (.down 2 (some 0)) CB).1 = CB := by c07_step
+theorem fixB4 : (runStep kb (.down 2 (some 1)) CB).1 = CB := by c07_step
+theorem fixB5 : (runStep kb (.up 3) CB).1 = CB := by c07_step
+theorem fixB6 : (runStep kb (.down 3 none) CB).1 = CB := by c07_step
+
+theorem runB : (runSteps kb LB C0).1 = CB := by
+  simp only [LB, runSteps, c_c, fixB5]
+
+theorem fixCA : ∀ st, st ∈ steps → (runStep kb st CA).1 = CA := by
+  simp only [steps, List.mem_cons, List.not_mem_nil, or_false, forall_eq_or_imp, forall_eq]
+  exact ⟨fixA1, fixA2, fixA3, fixA4, fixA5, fixA6⟩
+
+theorem fixCB : ∀ st, st ∈ steps → (runStep kb st CB).1 = CB := by
+  simp only [steps, List.mem_cons, List.not_mem_nil, or_false, forall_eq_or_imp, forall_eq]
+  exact ⟨fixB1, fixB2, fixB3, fixB4, fixB5, fixB6⟩
+
+/-- every hypothesis of `C07_contradiction_iff` holds for the two exhaustive schedules on the
+contradictory data -/
+example : (∃ st, st ∈ steps ∧ arrested kb (runSteps kb LA C0).1 (node st) = true) ↔
+    (∃ st, st ∈ steps ∧ arrested kb (runSteps kb LB C0).1 (node st) = true) :=
+  C07_contradiction_iff kb wf (· ∈ steps) C0 unitC LA LB
+    (by simp [LA, steps]) (by simp [LB, steps])
+    (by rw [runA]; exact fixCA) (by rw [runB]; exact fixCB)
+
+/-- both schedules end with the conjunction arrested, but in different states: with a contradiction
+the bounds do depend on the order, only the fact that there is one does not -/
+example : arrested kb (runSteps kb LA C0).1 2 = true ∧ arrested kb (runSteps kb LB C0).1 2 = true ∧
+    (runSteps kb LA C0).1 1 = ⟨1, 1⟩ ∧ (runSteps kb LB C0).1 1 = ⟨0, 1⟩ := by
+  rw [runA, runB]
+  norm_num [arrested, isContra, kb, CA, CB, region]
+
+end C07ex
+
 end LNN
